@@ -63,6 +63,7 @@ def setup_interp(ctx, contract, registry):
     ip = Interp(ctx)
     libspec.install_logger_globals(ip.repo)
     ip.verifying = contract.qualname
+    ip.verifying_key = contract.key
     uses = contract.uses
     if uses == 'all':
         ip.contracts = {c.qualname: c for c in registry.values() if c.variant_name is None}
